@@ -145,9 +145,12 @@ def translate_site(src_root, site):
     if mode == "var":
         var = site["var"]; cur = site["atoms"][var][0] if var in site["atoms"] else "tracked"
         g.tracked = (var, cur)
-        idx = [i for i, s in enumerate(fn.body) if G.stores(s, var)]
-        if not idx: raise Unsupported(f"`{var}` is never assigned in {site['fn']}")
-        body = g.block(fn.body[: idx[-1] + 1], var, cur, 1)
+        stmts = fn.body
+        if site.get("before_loop"):          # only the prefix of the function up to its first `with` / `for` / `while` block
+            cut = next((i for i, s in enumerate(stmts) if isinstance(s, (ast.With, ast.For, ast.While))), len(stmts)); stmts = stmts[:cut]
+        idx = [i for i, s in enumerate(stmts) if G.stores(s, var)]
+        if not idx: raise Unsupported(f"`{var}` is never assigned in {site['fn']}" + (" before its loop" if site.get("before_loop") else ""))
+        body = g.block(stmts[: idx[-1] + 1], var, cur, 1)
         if var not in site["atoms"]:          # the variable is created by the function: `none` until it is first assigned
             body = f"  let {cur} : LK.Py.V := none\n" + body
     elif mode == "fn":
@@ -163,6 +166,13 @@ def translate_site(src_root, site):
         heads = [n for n in ifs if id(n) not in elifs and site["select"] in ast.unparse(n)]
         heads = [n for n in heads if any(site["select"] in ast.unparse(t) for t in _chain_tests(n))]
         if len(heads) != 1: raise Unsupported(f"{len(heads)} `if` chains test `{site['select']}` in {site['fn']} (expected one)")
+        if site.get("skips"):          # a retrain guard: the branch taken must leave at once, before the component's state is touched
+            h = heads[0]
+            if not (len(h.body) == 1 and isinstance(h.body[0], ast.Return) and h.body[0].value is None): raise Unsupported(f"the guard of {site['cls']}.{site['fn']} does not simply return")
+            before = fn.body[: next((i for i, st in enumerate(fn.body) if st is h), len(fn.body))]
+            if h not in fn.body or any(isinstance(t, ast.Attribute) for st in before for n in ast.walk(st) if isinstance(n, (ast.Assign, ast.AugAssign, ast.AnnAssign))
+                                       for t in (n.targets if isinstance(n, ast.Assign) else [n.target])):
+                raise Unsupported(f"{site['cls']}.{site['fn']} touches the component before its retrain guard")
         tests = _chain_tests(heads[0])
         body = ""; k = 0
         for t in tests:
@@ -238,6 +248,21 @@ SITES = {
  "C01": [dict(file="data/relationships.py", cls="MatrixRelationshipSet", fn="row_items", mode="branch", select="tbl", lean="rowItemsBranch",
               atoms={"tbl": ("tbl", O)})],
 }
+
+# the retrain guard every shipped trainable component starts `train` with (C18: the shape `LK.Train.train` assumes)
+TRAIN_GUARDS = [("implicit.py", "BaseRec", "item_embeddings"), ("knn/item.py", "ItemKNNScorer", "items_"), ("knn/user.py", "UserKNNScorer", "user_ratings_"),
+                ("funksvd.py", "FunkSVDScorer", "item_features_"), ("sklearn/svd.py", "BiasedSVDScorer", "factorization_"), ("hpf.py", "HPFScorer", "item_features_"),
+                ("basic/history.py", "UserTrainingHistoryLookup", "interactions"), ("basic/history.py", "KnownRatingScorer", "interactions"),
+                ("basic/bias.py", "BiasScorer", "model_"), ("basic/candidates.py", "TrainingCandidateSelectorBase", "items_"),
+                ("basic/popularity.py", "PopScorer", "item_scores_"), ("basic/popularity.py", "TimeBoundedPopScore", "item_scores_")]
+for _f, _c, _a in TRAIN_GUARDS:
+    SITES["C18"].append(dict(file=_f, cls=_c, fn="train", mode="branch", select="options.retrain", lean="guard" + _c, skips=True,
+                             atoms={f"hasattr(self, '{_a}')": ("trained", B), "options.retrain": ("retrain", B)}))
+SITES["C18"].append(dict(file="training.py", cls="IterativeTraining", fn="train", mode="branch", select="options.retrain", lean="guardIterativeTraining", skips=True,
+                         atoms={"self.trained_epochs > 0": ("trained", B), "options.retrain": ("retrain", B)}))
+
+SITES["C18"].append(dict(file="training.py", cls="IterativeTraining", fn="train", mode="var", var="self.trained_epochs", lean="epochsAtLoopStart", before_loop=True,
+                         atoms={"self.trained_epochs": ("epochs", O), "self.trained_epochs > 0": ("trained", B), "options.retrain": ("retrain", B)}))
 
 SITES["C11"] = SITES["C11"] + SITES["C05"]          # the samplers' fall-back paths must hand the generator on (C11) as well as `test_only` (C05)
 
